@@ -24,7 +24,7 @@ ASSUMPTIONS = [
 def cases(draw, nums, pmax=5, kmax=5):
     if draw(st.integers(0, 7)) == 0:
         kmax = 9  # many spans
-    c = draw(gen.curves(0, pmax, kmax, nums=nums))
+    c = draw(gen.curves(0, pmax, kmax, nums=nums, regimes="all"))
     outside = draw(gen.outside_params(c["U"]))
     seqtype = draw(st.sampled_from(["tuple", "list", "ndarray"]))
     return {"curve": c, "outside": outside, "seqtype": seqtype,
